@@ -642,6 +642,10 @@ func UnmarshalArrayYAML(value *yaml.Node) (*GeneralizedType, error) {
 						if err := v.Content[i].DecodeWithOptions(&dim, yaml.DecodeOptions{KnownFields: true}); err != nil {
 							return nil, err
 						}
+						if dim == nil {
+							// an alias of a null node (`[&n ~, *n]`) decodes to a nil pointer: it is an unnamed dimension like `~` itself
+							dim = &ArrayDimension{Comment: normalizeComment(v.Content[i].HeadComment), NodeMeta: createNodeMeta(v.Content[i])}
+						}
 					}
 					*array.Dimensions = append(*array.Dimensions, dim)
 				}
